@@ -74,6 +74,9 @@ def cases(draw, depth):
     }
 
 
+_AUX_MUTATIONS: list = []
+
+
 def _do_call(t, c):
     """Returns the call's result (or None). Must not be given anything but `t` itself as the argument under test."""
     import sqlglot
@@ -157,6 +160,16 @@ def _do_call(t, c):
     if name == "replace_tables":
         return exp.replace_tables(t, {"t": "zz.t", "u": "u2", "orders": "o"})
     if name == "replace_placeholders":
+        if k % 2:
+            # values may be NODES: they are arguments too (and one node must not end up under two parents of the result)
+            v1, v2 = exp.to_identifier("pv"), exp.column("pc", table="pt")
+            fps = (F.fingerprint(v1, deep=True), F.fingerprint(v2, deep=True))
+            r = exp.replace_placeholders(sqlglot.parse_one("SELECT :a, :a, ? FROM :b WHERE x = :a"), v2, a=v1, b=v1)
+            if v1.parent is not None or v2.parent is not None or (F.fingerprint(v1, deep=True), F.fingerprint(v2, deep=True)) != fps:
+                _AUX_MUTATIONS.append("replace_placeholders adopted or changed a node given as a value")
+            le = F.link_errors(r)
+            if le:
+                _AUX_MUTATIONS.append(f"replace_placeholders result is inconsistent: {le[:2]}")
         return exp.replace_placeholders(t, 1, 2, a=3)
     if name in ("diff_src", "diff_tgt"):
         from sqlglot import diff
@@ -171,6 +184,15 @@ def _do_call(t, c):
         names = t.named_selects
         if not names:
             return None
+        if k % 3 == 0:
+            # the column may be given as a NODE: it is an argument like the query and must come back untouched
+            col = exp.column(names[k % len(names)].upper() if k % 2 else names[k % len(names)])
+            fp0 = F.fingerprint(col, deep=True)
+            try:
+                return lineage(col, t, schema=SCHEMA, dialect=d)
+            finally:
+                if F.fingerprint(col, deep=True) != fp0 or col.parent is not None:
+                    _AUX_MUTATIONS.append(f"lineage changed its column argument: {col.sql()!r} (parent set: {col.parent is not None})")
         return lineage(names[k % len(names)], t, schema=SCHEMA, dialect=d)
     if name == "dump":
         return t.dump()
@@ -234,6 +256,8 @@ def check_case(case, res=None):
                 changed_result = True
         if res is not None:
             res.case(core.h8([case["sql"], case["read"], c]), changed_result, [f"call:{c['call']}"] + (["call-raised"] if err is not None else []))
+        while _AUX_MUTATIONS:
+            fails.append((f"argument-node-mutated-by:{c['call']}", f"{c} on {case['sql']!r}: {_AUX_MUTATIONS.pop()}"))
         if after != before:
             what = "fingerprint" if after[0] != before[0] else ("sql" if after[1] != before[1] else "links")
             detail = f"{c} on {case['sql']!r} (read={case['read']!r}) changed the argument's {what}"
